@@ -22,17 +22,18 @@ def run(c):
               "each with a small unique sketch sharing values) and evaluates 4 merge programs on the real code (given order, permutations, "
               "random binary trees) through MultiValue.Merge (stream `values`: quick 400, thorough 8000); stream `ts` does the same for API "
               "rows with tsValues.merge (100 / 2000); stream `sketch` (6 / 80 cases) builds 2-3 sketches of 1..280000 values (sizes around 2^16 included) and merges them with ChUnique.Merge and "
-              "MergeRead in several orders. Non-trivial = a merge consumed a random draw / two leaves tie for the minimum / API rows / "
+              "MergeRead in several orders. A third of the leaves also take a MultiValue.ApplyUnique event. After every sketch op the real table is compared slot by slot with the table model "
+              "and every stored value is looked up with the real insertImpl probe (oracle unique-item-unreachable / unique-count-mismatch). Non-trivial = a merge consumed a random draw / two leaves tie for the minimum / API rows / "
               "sketch operands with different skipDegree; distinct by op-sequence hash")
     c.assumptions += [
         "float64 arithmetic is modelled exactly (Int) inside the exact domain only: integer values, counters that are multiples of 1/4; rounding outside it is not decided",
-        "the open-addressing table of ChUnique is abstracted to the set of stored values (table layout, collision chains and resize data movement are validated only by the differential run, which compares stored values, itemsCount, skipDegree, sizeDegree after every op)",
+        "ChUnique is modelled twice: as a set (SH.Model.Unique, Part 3 theorems) and as the concrete open-addressing table (SH.Model.UniqueTable: buf, place, probing with wrap-around, both rehash loops, the resize relocation loop). Every replayed op is run on both; the table model must reproduce the real table slot by slot (B lines: layout digest, full buf up to 64 slots, and the well-formedness flag). Part 4 proves that every table op commutes with the abstraction and that insertImpl keeps the table well-formed; that rehash/resize re-establish reachability is NOT proved (checked by the executable wfb, proved equivalent to WF, on every replayed op, and on the real table by the oracle unique-item-unreachable)",
         "rng.Uint64n(totalWeight) is an input of each model step (theorems hold for every draw); the harness predicts it on a copy of the rng and checks the real code consumed exactly that draw",
         "wire images handed to UmMarshall/MergeRead/ReadFrom are produced by the real MarshallAppend (no malformed sketches); ValueTDigest/percentiles are not modelled",
         "Size(false) is a fixed function of (itemsCount, skipDegree); the theorems are about that pair",
     ]
     binary = gen(c)
-    c.prove("SH.Props.C04", extra_files=["SH/Model/Agg.lean", "SH/Model/Unique.lean", "SH/Lemmas/UniqueTrie.lean"])
+    c.prove("SH.Props.C04", extra_files=["SH/Model/Agg.lean", "SH/Model/Unique.lean", "SH/Model/UniqueTable.lean", "SH/Lemmas/UniqueTrie.lean", "SH/Lemmas/UniqueTable.lean"])
     drv = c.driver(DRIVER)
     if binary and drv:
         # three streams (the label is the harness -mode, so that `bin/check C04 --replay f` regenerates the same case)
@@ -56,15 +57,21 @@ def run(c):
 META = {
     "level": "proof",
     "technique": "Lean 4 theorems over an executable model of ItemValue/ItemCounter/tsValues merge and of the ChUnique sketch (set abstraction, bit trie), all merge trees by induction; differential correspondence op by op with the real code; direct order/grouping oracle on the real code",
-    "text": ("Kernel-checked: for every binary merge tree over arbitrary contributions and every stream of random draws, count/min/max/sum/sum-of-squares are "
-             "functions of the multiset of leaves (so any permutation and grouping agree), the min/max host is the host of a leaf that attains the min/max, "
-             "the max-count host is the host of a leaf with positive count; for the sketch, every program of inserts and merges ends in the canonical state of the "
-             "set of inserted hashes (least skipDegree that fits, the values divisible by it), for arbitrary size limit; decide-witnesses show the pre-fix Merge/MergeRead "
-             "violate this. The model is tied to /repo by replaying every generated op on the real objects and on the compiled model."),
-    "note": ("Trusted: Lean kernel, the model<->code correspondence on generated programs (incl. sketches above 2^16 values), exact-domain float arithmetic, the set "
-             "abstraction of the open-addressing table (its layout/collision handling is only differential-tested). The theorems are about the code after "
-             "fixes/C04-chunique-merge.diff (/repo commit e786491b: Merge filtered with rhs.good, MergeRead did not adopt skipDegree, readers chose sizeDegree 18 "
-             "for exactly 2^16 values); on the tree before it the check prints VIOLATION with replays (sig unique-merge-order, unique-mergeread-vs-merge). "
-             "Not proved: the table refinement (buf/place/rehash chains) and IEEE rounding outside the exact domain; ApplyUnique and t-digest are not modelled."),
+    "text": ("Kernel-checked: (1) for every binary merge tree over arbitrary contributions and every stream of random draws, count/min/max/sum/sum-of-squares are "
+             "functions of the multiset of leaves (any permutation and grouping agree), the min/max host is the host of a leaf that attains the min/max, the max-count host is "
+             "the host of a leaf with positive count; AddValueCounterHost and ApplyUnique are merges with one leaf; (2) the same for API rows (tsValues.merge); (3) for the sketch, "
+             "every program of inserts, Merge and MergeRead-over-the-wire ends in the canonical state of the set of inserted hashes (least skipDegree that fits, the values divisible "
+             "by it), for arbitrary size limit; decide-witnesses show the pre-fix Merge/MergeRead violate this; (4) the concrete open-addressing table (buf, probing with wrap-around, "
+             "rehash with both loops, resize with its relocation loop) refines the set model: insertImpl commutes with the abstraction and keeps the table well-formed (every stored "
+             "value reachable from its home slot, stored once, itemsCount = occupied slots), lookups in a well-formed table are complete, rehash/resize/shrinkIfNeed/one insertHash "
+             "step commute with the abstraction on values and counters; the executable wfb is proved equivalent to the invariant. The models are tied to /repo by replaying every "
+             "generated op on the real objects and on the compiled models, comparing value fields, sketch contents and the table layout slot by slot."),
+    "note": ("Trusted: Lean kernel, the model<->code correspondence on generated programs (incl. sketches above 2^16 values), exact-domain float arithmetic. "
+             "PARTIAL (Part 4, table_refines): it is not proved that rehash and resize re-establish reachability of every stored value (the two 'process the first collision chain "
+             "again' loops and the `i < oldSize || buf[i] != 0` bound), so WF is an invariant only across insertImpl; instead wfb (= WF, proved) is evaluated by the driver after every "
+             "replayed op and the real table is probed for every stored value (oracle unique-item-unreachable). A decide counter-example shows that with the resize loop shortened to "
+             "`i < oldSize` (seeded C03-2) all value-level theorems still hold but a wrapped value is stranded and the next insert of it is counted twice. "
+             "The theorems of Part 3 are about the code after fixes/C04-chunique-merge.diff (/repo e786491b). Not decided: IEEE rounding outside the exact domain; ApplyUnique rescaling "
+             "is modelled only where the division is exact (count = number of hashes, or 1/2/4 hashes with an integer count); t-digest is not modelled."),
     "design_ref": "DESIGN.md §6 C04",
 }
